@@ -37,6 +37,8 @@ bool classDerivesFrom(const std::string& cls, const std::string& base) {
 }
 
 struct GenBuf : std::streambuf {
+	static inline bool tame = false; // slot discovery (attachBelowShape) only needs the shape of a block: no large values
+
 	Rng rng;
 	uint32_t nStrings = 4;
 	bool oldStrings = false; // < 20.1.0.3: string refs are inline
@@ -103,8 +105,11 @@ struct GenBuf : std::streambuf {
 					else v = smallCount();
 					// flag words keep fields in their upper bits (NBT method in the top nibble of the 16-bit geometry data flags,
 					// shader flags): now and then the top nibble is populated as well
-					if (n == 2 && rng.chance(0.06)) v |= uint64_t(rng.below(16)) << 12;
-					else if (n == 4 && rng.chance(0.02)) v |= uint64_t(rng.below(16)) << 28;
+					if (tame) {}
+					else if (n == 2 && rng.chance(0.015)) v |= uint64_t(rng.below(16)) << 12;
+					else if (n == 4 && rng.chance(0.004)) v |= uint64_t(rng.below(16)) << 28;
+					// a block that has grown beyond a megabyte stops growing (a large count was drawn): further counts are zero
+					if (produced > (1u << 20)) v = 0;
 					memcpy(p, &v, n);
 					lastInt = v;
 					return;
@@ -366,7 +371,9 @@ static const std::vector<std::string>& childSlotTypes(NiHeader& hdr, const std::
 	std::vector<std::string> out;
 	if (!isBuilderOnly(type) && type != "NiUnknown") {
 		for (uint64_t sd = 1; sd <= 3; sd++) {
+			GenBuf::tame = true;
 			GenBlock g = genOne(hdr, type, 7700 + sd, true);
+			GenBuf::tame = false;
 			if (!g.obj) break;
 			std::set<NiRef*> cs;
 			g.obj->GetChildRefs(cs);
